@@ -30,7 +30,7 @@ class C05(LBCheck):
           'non-trivial = a join or leave was delivered; distinct as C03')
   REQUIRED_CLASSES = ('heap', 'aperture', 'join-duplicate', 'leave-unknown', 'rejoin', 'notify-during-loading',
                       'rejoin-while-draining', 'removal', 'init-retry', 'saturation-probe', 'full-stack', 'tuple-endpoints', 'close-raises-on-leave', 'duplicates-in-initial-list',
-                      'named-endpoint', 'zk-backed', 'zk-backed:named-endpoint', 'zk-backed:restart', 'look-alike-endpoints',
+                      'named-endpoint', 'zk-backed', 'zk-backed:named-endpoint', 'zk-backed:restart', 'zk-backed:registrant-without-the-named-endpoint', 'look-alike-endpoints',
                       'yielding-close', 'yielding-close:closed-inside-completion', 'yielding-close:root-leaves-in-window',
                       'yielding-close:idle-leaves-in-window', 'yielding-close:rejoin-in-window', 'thrift', 'mux')
   ASSUMPTIONS = ('eligible endpoints are read from the balancer\'s heap and idle set (observe_at: internal)',)
@@ -58,6 +58,8 @@ class C05(LBCheck):
     counter, port = [0], [7000]
     facts = {'balancer': kind, 'named': bool(named), 'latency': lat_cls}
 
+    bad_ok = [False]      # (only once the balancer has opened: what a listing that cannot be loaded means is not stated)
+
     def add_member():
       counter[0] += 1
       port[0] += 1
@@ -66,6 +68,12 @@ class C05(LBCheck):
                                       'thrift': {'host': 'th%d' % port[0], 'port': port[0] + 2000},
                                       'admin': {'host': 'adm%d' % port[0], 'port': port[0] + 3000}},
               'status': 'ALIVE'}
+      if named and bad_ok[0] and rng.random() < 0.15:
+        # a registrant that does not publish the endpoint the balancer is configured with: the balancer
+        # cannot use it (its join and leave are refused with an error, which the provider logs); the
+        # other changes of the same listing are not its business
+        del blob['additionalEndpoints'][named]
+        classes.add('zk-backed:registrant-without-the-named-endpoint')
       zk.create_node('%s/member_%010d' % (path, counter[0]), json.dumps(blob).encode())
 
     def truth():
@@ -73,8 +81,9 @@ class C05(LBCheck):
       for p_, (data, _st) in zk.nodes.items():
         if p_.startswith(path + '/member_'):
           d = json.loads(data)
-          e = d['additionalEndpoints'][named] if named else d['serviceEndpoint']
-          t.add(Endpoint(e['host'], e['port']))
+          e = d['additionalEndpoints'].get(named) if named else d['serviceEndpoint']
+          if e is not None:
+            t.add(Endpoint(e['host'], e['port']))
       return t
     for _ in range(rng.choice([0, 1, 3, 6])):
       add_member()
@@ -115,6 +124,7 @@ class C05(LBCheck):
       g += 1
     live = []
     stats = {'dispatches': 0, 'checks': 0}
+    bad_ok[0] = open_ar.ready()
 
     def quiesce():
       for _ in range(100):
